@@ -1577,7 +1577,8 @@ def _t_eval(target, _t, scope):
     pae = None
     while i < fetch_till:
         op, arg = t_path[i], t_path[i + 1]
-        arg = arg_val(target, arg, scope)
+        if op != '(':  # Call evaluates its args itself, evaluating them here too would treat their values as specs
+            arg = arg_val(target, arg, scope)
         if op == '.':
             try:
                 cur = getattr(cur, arg)
